@@ -260,12 +260,17 @@ Proof. intros H. apply sq_wrap_esc_closed. intros _. exact H. Qed.
 Theorem pg_quote_closed s : is_quoted s [39%N] = false -> quoted_token false (pg_quote s) = true.
 Proof. intros H. unfold pg_quote. rewrite H. apply sq_wrap_closed. Qed.
 
-Theorem single_quote_closed s t :
-  is_quoted s [39%N] = false -> single_quote s = Some t -> quoted_token false t = true.
+Theorem single_quote_closed unq s t :
+  is_quoted s [39%N] = false -> single_quote unq s = Some t -> quoted_token false t = true.
 Proof.
-  intros H. unfold single_quote. rewrite H. destruct (is_quoted s [34%N]); [discriminate|].
-  intros E. inversion E. apply sq_wrap_closed.
+  intros H. unfold single_quote. rewrite H. destruct (is_quoted s [34%N]).
+  - destruct (unq s) as [v|]; [|discriminate]. intros E. injection E as <-. apply sq_wrap_closed.
+  - intros E. injection E as <-. apply sq_wrap_closed.
 Qed.
+(** an input already quoted with ' is passed through: the output is closed exactly when the input is *)
+Theorem single_quote_passthrough unq s :
+  is_quoted s [39%N] = true -> single_quote unq s = Some s.
+Proof. intros H. unfold single_quote. rewrite H. reflexivity. Qed.
 
 (** * 2. strconv.Quote *)
 (** no bare double quote, every backslash is followed by a byte *)
